@@ -17,6 +17,11 @@ RULE = ('T2: URI.abspath / URI.normalize / URI.__eq__ evaluated by the Gallina m
 	'independent Python transcription. Oracle (independent of the model): idempotence, no dot segment, no "//", equality with the Python RFC 5.2.4 '
 	'transcription on the slash-collapsed path for all paths of <= 6 segments (7 thorough), lower-casing, explicit default port from an independent '
 	'port table, reflexive/symmetric/transitive ==, == iff normalised public components equal. '
+	'Added input classes: operands that differ in exactly one of the eight components or are equal by construction (tuples and independently percent-re-encoded '
+	'textual forms; == is compared with a normal form written from the property text, and must not modify its operands), all paths of <= 3 segments over segments '
+	'with encoded delimiters/dots (%2f %2F %2e %5c %252f ...) bare, on http://h and through the textual form, every scheme of URI.SCHEMES read at run time x letter '
+	'case x port form x class, Unicode normalisation forms / look-alikes and degenerate values in every text position, lengths around 12..65536 in every position '
+	'(> 4200 octets oracle-only), objects modified through every public setter between uses against a fresh object built from the same final components. '
 	'non-trivial = distinct input whose normalised form differs from the input')
 EXHAUSTIVE = {'quick': True, 'thorough': True}
 TRUSTED = ['harness/tables/urinorm.py (T1: URI.SCHEMES -> PORT, URI.PORT, probe of normalize() on an upper-case known scheme)',
@@ -170,7 +175,279 @@ def gen_cases(rng, tier):
 				else:
 					xs.append({'cls': 'URI', 't': t})
 		cases.append({'k': 'eq', 'xs': xs})
+	cases.extend(gen_classes(rng, tier))
 	return cases
+
+
+# ---------------------------------------------------------------- input classes added after the seeded rounds
+# (single-component differences, encoded delimiters inside segments, objects reused after modification, Unicode
+# normalisation forms, lengths around limits, the scheme registry of the tree, degenerate components, textual
+# re-encodings).  Expectations are computed here from the component tuples, never from the implementation.
+
+UNI = ['e\u0301', '\u00e9', '\u212b', '\u00c5', 'A\u030a', '\u2126', '\u03a9', '\u212a', 'K', '\u1112\u1161\u11ab', '\ud55c',
+	'\uf900', '\u8c48', '\U0001d400', '\U00010400', '\U00010428', '\ufb01', '\u01c5']
+ENCSEGS = ['', '.', '..', 'a', '%2f', '%2F', 'a%2fb', '..%2f..', '%2f..', '.%2f', '%2e', '%2E%2E', '%5c..', ';', '%00', '%252f']
+DEGEN = ['', ' ', '  ', ':', '@', '/', '//', '?', '#', '&&', '=', '"', '"a', '%', ',', ';', '\t']
+DEGEN_HOSTS = [' ', '.', '..', ':', '[', '[]', '%', 'h.', '.h', 'h..h']
+DEGEN_PATHS = ['', '/', '//', '///', '/./', '/../', '/.', '/..', '/ ', '/%', '/?', '/#', '/:', '/"', '/ /', '/./.', '/../..', '//..//', '/.//..']
+DEGEN_TEXTS = ['http://h', 'http://h/', 'http://h?', 'http://h#', 'http://h/?', 'http://h/#', 'http://h/?#', 'http://h?#', 'http://@h', 'http://:@h', 'http://@h:',
+	'http://h:', 'http://h:/', 'http://u:@h:/', 'http://u@h', 'http://h:80', 'http://h:080/', 'HTTP://H:80/', 'http://h//', 'http://h///', 'http://h/.', 'http://h/..',
+	'http://h/./', 'http://h/../', 'http://h/%2e', 'http://h/%2E%2e/', 'http://h/%2f', 'http://h/%2F', 'http://h//%2f', 'http://h/%2f/..', 'http://h/..%2f', 'http://h/%', 'http://h/%zz',
+	'http://h/?&&', 'http://h/?=', 'http://h/#%23', 'http://h/;', 'http://h/;/..', 'http://h/a;b/../c', 'http://[::1]', 'http://[::1]:80/', 'http://[0:0:0:0:0:0:0:1]/', 'http://127.0.0.1/']
+LIMITS = [11, 12, 75, 76, 255, 256, 1023, 1024, 4095, 4096]
+LIMITS_BIG = [8190, 8191, 8192, 65535, 65536]
+COQ_MAX = 4200   # longer inputs stay oracle-only (size of the case file)
+UNRESERVED = 'abcdefghijklmnopqrstuvwxyzABCDEFGHIJKLMNOPQRSTUVWXYZ0123456789-._~'
+
+
+def indep_nf(t):
+	"""normal form of a component tuple of an absolute URI, written from the property text (None: no expectation)"""
+	s, u, pw, h, port, path, q, f = t
+	if not (s and h):
+		return None
+	if path and not path.startswith('/'):
+		return None
+	if isinstance(port, str) and port and not port.isdigit():
+		return None
+	return [s.lower(), u, pw, h.lower(), int(port) if port else U.DEFAULT_PORTS.get(s.lower()), U.rfc_rds(U.collapse(path)), q, f]
+
+
+def _pct(rng, text, literal, p_enc=0.15):
+	out = []
+	for ch in text:
+		if ch in UNRESERVED or ch in literal:
+			if ch in UNRESERVED and rng.random() < p_enc:
+				out.append(('%%%02x' if rng.random() < 0.5 else '%%%02X') % ord(ch))
+			else:
+				out.append(ch)
+		else:
+			for b in ch.encode('utf-8'):
+				out.append(('%%%02x' if rng.random() < 0.5 else '%%%02X') % b)
+	return ''.join(out)
+
+
+def render_text(rng, t):
+	"""an independent textual form (RFC 3986 section 3 / 5.3) of a component tuple with random percent-encoding of
+	unreserved characters, random hex-digit case and optional forms of the port; None when the tuple has no text"""
+	s, u, pw, h, port, path, q, f = t
+	if not (s and h) or not s.isascii() or not h.isascii() or s.strip('abcdefghijklmnopqrstuvwxyzABCDEFGHIJKLMNOPQRSTUVWXYZ0123456789.-+'):
+		return None
+	if h.lower().startswith('xn--') or '.xn--' in h.lower() or h.strip(UNRESERVED + '[]:') or (('[' in h or ':' in h) and h != '[::1]'):
+		return None
+	if h.replace('.', '').isdigit() and h != '127.0.0.1':
+		return None
+	if path and not path.startswith('/'):
+		return None
+	if q not in QUERIES or (pw and not u):
+		return None
+	if isinstance(port, str) and port and not port.isdigit():
+		return None
+	sub = "!$&'()*,;="
+	segs = []
+	for seg in path.split('/'):
+		segs.append(rng.choice(['%2f', '%2F']).join(_pct(rng, part, sub + '@') for part in seg.split('%2f')))
+	ptxt = '/'.join(segs)
+	if not port:
+		portt = rng.choice(['', '', ':']) if not ptxt.startswith('//') else ''
+	else:
+		portt = ':' + rng.choice(['', '', '0', '00']) + str(port)
+	ui = ''
+	if u:
+		ui = _pct(rng, u, sub) + ((':' + _pct(rng, pw, sub + ':')) if pw else rng.choice(['', ':'])) + '@'
+	txt = '%s://%s%s%s%s%s%s' % (s, ui, h, portt, ptxt, '?' + q if q else rng.choice(['', '', '?']), ('#' + _pct(rng, f, sub + ':@/?')) if f else rng.choice(['', '', '#']))
+	if '://' in txt[len(s) + 3:].split('?')[0].split('#')[0]:
+		return None
+	return txt
+
+
+def _other(rng, pool, cur, key=lambda x: x):
+	c = [x for x in pool if key(x) != key(cur)]
+	return rng.choice(c)
+
+
+def perturb(rng, t, slot):
+	"""the same tuple with exactly one component changed so that the normal forms differ"""
+	t = list(t)
+	v = t[slot]
+	if slot == 0:
+		t[0] = _other(rng, [x for x in SCHEMES if x], v, str.lower)
+	elif slot == 3:
+		t[3] = rng.choice([v + 'x', 'x.' + v, v + '.', _other(rng, [x for x in HOSTS if x], v, str.lower)])
+	elif slot == 4:
+		eff = int(v) if v else U.DEFAULT_PORTS.get(t[0].lower())
+		t[4] = _other(rng, [8080, 81, 1, 65535, 80, 443, 21], eff)
+	elif slot == 5:
+		r = rng.random()
+		if r < 0.4 or not v:
+			t[5] = (v + 'x') if v else '/x'
+		elif r < 0.6:
+			t[5] = v + '%2f'
+		elif r < 0.8 and v.count('/') > 1:
+			i = v.rindex('/')
+			t[5] = v[:i] + '%2f' + v[i + 1:]
+		else:
+			t[5] = '/y' + v
+	else:
+		import unicodedata
+		alts = [v + 'x', 'x' + v, v.swapcase(), v + ' ', v + '/', '', unicodedata.normalize('NFD', v), unicodedata.normalize('NFC', v), unicodedata.normalize('NFKC', v), v + rng.choice(UNI)]
+		t[slot] = _other(rng, alts + ['top', 'bottom'], v)
+	return t
+
+
+def _operand(rng, t, cls=None, p_text=0.5):
+	nf = indep_nf(t)
+	if rng.random() < p_text:
+		txt = render_text(rng, t)
+		if txt is not None:
+			return {'text': txt, 'nf': nf}
+	return {'cls': cls or rng.choice(CLASSES), 't': list(t), 'nf': nf}
+
+
+def _unitext(rng):
+	return rng.choice(UNI) if rng.random() < 0.6 else rng.choice(['a', '', 'x ']) + rng.choice(UNI) + rng.choice(['', 'b', rng.choice(UNI)])
+
+
+def _rooted(rng, alphabet=None, hi=5):
+	return rng.choice(['', '/', '/' + U.rpath(rng, 0, hi, alphabet or (U.SEGS8 + ['c', '~smith', 'x;p', 'a%2fb', '%2f', '..%2f..', 'e\u0301', '\u00e9']))])
+
+
+def _base(rng, uni=False, degen=False):
+	t = rtuple(rng, absolute=True, path=_rooted(rng))
+	if uni:
+		for slot in (1, 2, 6, 7):
+			if rng.random() < 0.5:
+				t[slot] = _unitext(rng)
+		if rng.random() < 0.5:
+			t[3] = rng.choice(UNI) + rng.choice(['', '.de', '.' + rng.choice(UNI)])
+		if rng.random() < 0.5:
+			t[5] = '/' + '/'.join(rng.choice(U.SEGS8[:5] + UNI) for _ in range(rng.randint(1, 5)))
+	if degen:
+		for slot in (1, 2, 6, 7):
+			if rng.random() < 0.5:
+				t[slot] = rng.choice(DEGEN)
+		if rng.random() < 0.3:
+			t[3] = rng.choice(DEGEN_HOSTS)
+		if rng.random() < 0.5:
+			t[5] = rng.choice(DEGEN_PATHS)
+	return t
+
+
+def _registry():
+	"""(scheme name, class name, PORT) of every entry of URI.SCHEMES of the tree under test, read at run time"""
+	C = U.classes()
+	out = []
+	for k, cls in sorted(C['URI'].SCHEMES.items()):
+		out.append((k.decode('ascii') if isinstance(k, bytes) else k, cls.__name__, cls.PORT))
+	return out
+
+
+def _cases_of(s):
+	alt = ''.join(ch.upper() if i % 2 else ch.lower() for i, ch in enumerate(s))
+	return [s.lower(), s.upper(), s.title(), alt]
+
+
+def gen_classes(rng, tier):
+	big = tier == 'thorough'
+	mul = 5 if big else 1
+	cases = []
+	# -- (5)/(C11-9) segments that carry an encoded delimiter or an encoded dot: data inside a segment, never a separator
+	chunk = []
+	for k in range(0, 4 if big else 3):
+		for w in U.words(ENCSEGS, k + 1):
+			chunk.append('/' + '/'.join(w))
+	for _ in range(1500 * mul):
+		chunk.append(rng.choice(['/', '', '//']) + U.rpath(rng, 1, 7, ENCSEGS + ['b', '...', 'a.']))
+	for i in range(0, len(chunk), 128):
+		cases.append({'k': 'paths', 'ps': chunk[i:i + 128], 'coq': True})
+	# the same through the textual form (parse keeps an encoded slash as a placeholder, decodes an encoded dot)
+	for _ in range(300 * mul):
+		s, h = rng.choice(['http', 'HTTP', 'ftp', 'x-y']), rng.choice(['h', 'Example.COM', '[::1]'])
+		cases.append({'k': 'norm', 'cls': 'URI', 'text': '%s://%s/%s%s' % (s, h, U.rpath(rng, 1, 6, [x for x in ENCSEGS if x != '%00'] + ['b', '%7e', '%41', 'x%2Fy%2f..']), rng.choice(['', '?q', '#f']))})
+	for txt in DEGEN_TEXTS:
+		cases.append({'k': 'norm', 'cls': 'URI', 'text': txt})
+	# -- (C11-8) equality: operands that differ in exactly one component / that are equal by construction;
+	#    tuples and independently re-encoded textual forms (6); Unicode forms (2); degenerate components (5)
+	for n in range(700 * mul):
+		base = _base(rng, uni=n % 4 == 1, degen=n % 4 == 2)
+		slot = n % 8
+		var = variant_of(rng, base)
+		pa = perturb(rng, base, slot)
+		pb = list(var)
+		pb[slot] = pa[slot]
+		if slot == 0:
+			pb[4] = pa[4] = base[4] or None  # the default port belongs to the scheme
+		xs = [_operand(rng, base), _operand(rng, var), _operand(rng, pa), _operand(rng, pb)]
+		cases.append({'k': 'eq', 'xs': xs})
+	for txt in DEGEN_TEXTS:
+		cases.append({'k': 'eq', 'xs': [{'text': txt}, {'text': rng.choice(DEGEN_TEXTS)}, {'text': rng.choice(DEGEN_TEXTS)}]})
+	# -- (4) every scheme of the registry of the tree, in several letter cases, port forms, classes
+	reg = _registry()
+	names = [r[1] for r in reg]
+	for name, clsname, port in reg:
+		for s in _cases_of(name):
+			for pf in (None, '', port, str(port), 8080):
+				for cls in ('URI', clsname, names[(names.index(clsname) + 1) % len(names)]):
+					cases.append({'k': 'norm', 'cls': cls, 'via': rng.choice(['tuple', 'dict']), 't': [s, '', '', rng.choice(['h', 'H']), pf, rng.choice(['/a/../b', '', '/']), '', '']})
+		xs = [{'text': '%s://h/x' % name, 'nf': [name, '', '', 'h', U.DEFAULT_PORTS.get(name, port), '/x', '', '']},
+			{'text': '%s://H:%s/y/../x' % (name.upper(), port), 'nf': [name, '', '', 'h', U.DEFAULT_PORTS.get(name, port), '/x', '', '']},
+			{'cls': rng.choice(['URI', clsname]), 't': [_cases_of(name)[3], '', '', 'H', None, '//x', '', '']},
+			{'text': '%s://h:%d/x' % (name, port + 1), 'nf': [name, '', '', 'h', port + 1, '/x', '', '']}]
+		xs[2]['nf'] = indep_nf(xs[2]['t'])
+		cases.append({'k': 'eq', 'xs': xs})
+	# -- (2) Unicode forms and (5) degenerate values in every text position of a component tuple
+	for n in range(500 * mul):
+		cases.append({'k': 'norm', 'cls': rng.choice(CLASSES), 'via': rng.choice(['tuple', 'dict']), 't': _base(rng, uni=n % 2 == 0, degen=n % 2 == 1)})
+	# -- (3) lengths at and around limits in every position that has a length
+	for n in LIMITS + LIMITS_BIG:
+		coq = n <= COQ_MAX
+		paths = ['/' + 'a' * n, '/' * n, '/' + '/'.join(['a'] * (n // 2)), '/' + '/'.join(['..'] * (n // 3)), '/' + 'a/' * (n // 4) + '../' * (n // 4), '/' + './' * (n // 2),
+			'/' + 'a' * (n - 2) + '/..', '/x' + '/' * n + '..', '/' + '%2f' * (n // 3), '/' + '.' * n]
+		if n > 4096 and not big:
+			paths = paths[:4]
+		for p in paths:
+			cases.append({'k': 'path', 'p': p, 'nocoq': not coq})
+		for slot in (0, 1, 2, 3, 6, 7):
+			t = ['HTTP', 'u', 'p', 'H', None, '/a/../b', 'q', 'f']
+			t[slot] = ('Ab' * n)[:n] if slot != 0 else ('Xy' * n)[:n]
+			cases.append({'k': 'norm', 'cls': 'URI', 'via': 'tuple', 't': t, 'nocoq': not coq})
+	for port in (1, 79, 80, 81, 442, 443, 444, 65534, 65535, '1', '65535', '080'):
+		for s in ('HTTP', 'https', 'x-y'):
+			cases.append({'k': 'norm', 'cls': 'URI', 'via': 'tuple', 't': [s, '', '', 'H', port, '/a/..', '', '']})
+	# -- (1) objects that are used, modified through every public way and used again: the expectation is a fresh
+	#    object built from the same final data
+	for n in range(600 * mul):
+		cases.append({'k': 'mut', 'cls': rng.choice(CLASSES), 't': _base(rng, uni=n % 5 == 1, degen=n % 5 == 2), 'ops': [_mutation(rng) for _ in range(rng.randint(1, 4))]})
+	return cases
+
+
+FIELDS = ['scheme', 'username', 'password', 'host', 'port', 'path', 'query_string', 'fragment']
+
+
+def _mutation(rng):
+	r = rng.random()
+	if r < 0.2:
+		return ['use', rng.choice(['normalize', 'normalize', 'eq', 'eq', 'compose', 'abspath'])]
+	if r < 0.55:
+		slot = rng.randrange(8)
+		t = _base(rng, uni=rng.random() < 0.2)
+		v = t[slot]
+		if slot == 5 and rng.random() < 0.5:
+			v = '/' + U.rpath(rng, 1, 5, ENCSEGS + ['b'])
+		return ['attr', FIELDS[slot], v]
+	if r < 0.65:
+		return ['tuple', _base(rng)]
+	if r < 0.75:
+		t = _base(rng)
+		keep = [i for i in range(8) if rng.random() < 0.7]
+		return ['dict', {FIELDS[i]: t[i] for i in keep}]
+	if r < 0.85:
+		txt = None
+		while txt is None:
+			txt = render_text(rng, _base(rng))
+		return [rng.choice(['set', 'parse']), txt]
+	if r < 0.93:
+		return ['segments', [''] + [rng.choice(['a', 'b', '..', '.', '', 'a/b', '/', '../..', 'e\u0301']) for _ in range(rng.randint(0, 4))]]
+	return ['copyfrom', rng.choice(CLASSES), _base(rng)]
 
 
 # ---------------------------------------------------------------- observation of the real code
@@ -217,6 +494,60 @@ def _obs_paths(ps, bare):
 	return out
 
 
+def _obs_mut(c):
+	C = U.classes()
+	u = C[c['cls']](tuple(c['t']))
+	for op in c['ops']:
+		w = op[0]
+		if w == 'use':
+			if op[1] == 'normalize':
+				u.normalize()
+			elif op[1] == 'abspath':
+				u.abspath()
+			elif op[1] == 'compose':
+				try:
+					bytes(u)
+				except Exception:  # composing (IDNA of a degenerate host ...) is the component property's business
+					pass
+			else:
+				bool(u == type(u)(u))
+		elif w == 'attr':
+			setattr(u, op[1], op[2])
+		elif w == 'tuple':
+			u.tuple = tuple(op[1])
+		elif w == 'dict':
+			u.dict = dict(op[1])
+		elif w == 'set':
+			u.set(op[1].encode('ascii'))
+		elif w == 'parse':
+			u.parse(op[1].encode('ascii'))
+		elif w == 'segments':
+			u.path_segments = list(op[1])
+		elif w == 'copyfrom':
+			u.set(C[op[1]](tuple(op[2])))
+		else:
+			raise ValueError(w)
+	o = {'f': U.state(u)}
+	fresh = C['URI'](tuple(u.tuple))
+	o['fc'] = U.state(fresh)
+	o['eq1'] = [bool(u == fresh), bool(fresh == u), bool(u == u)]
+	o['f2'] = U.state(u)
+	u.normalize()
+	o['n1'] = U.state(u)
+	o['pub1'] = U.public(u)
+	u.normalize()
+	o['n2'] = U.state(u)
+	fresh.normalize()
+	o['fn1'] = U.state(fresh)
+	o['eq2'] = [bool(u == fresh), bool(fresh == u), bool(u == u)]
+	w = type(u)(u)
+	w.normalize()
+	o['copy'] = U.state(w)
+	t = o['f']['t']
+	o['lower_idem'] = all(s.lower().lower() == s.lower() for s in (t[0], t[3]))
+	return o
+
+
 def observe(c):
 	k = c['k']
 	C = U.classes()
@@ -228,12 +559,18 @@ def observe(c):
 		if k == 'rds':
 			return {'rs': [U.rfc_rds(p) for p in c['ps']]}
 		if k == 'norm':
-			t = c['t']
-			if c['via'] == 'dict':
-				u = C[c['cls']](**dict(zip(('scheme', 'username', 'password', 'host', 'port', 'path', 'query_string', 'fragment'), t)))
+			if 'text' in c:
+				u = C[c['cls']](c['text'].encode('ascii'))
+				t = U.state(u)['t']   # the components as parsed (URI.parse is the component property's business)
 			else:
-				u = C[c['cls']](tuple(t))
+				t = c['t']
+				if c['via'] == 'dict':
+					u = C[c['cls']](**dict(zip(('scheme', 'username', 'password', 'host', 'port', 'path', 'query_string', 'fragment'), t)))
+				else:
+					u = C[c['cls']](tuple(t))
 			o = {'c': U.state(u)}
+			if 'text' in c:
+				o['t'] = t
 			u.normalize()
 			o['n1'] = U.state(u)
 			o['pub1'] = U.public(u)
@@ -270,7 +607,10 @@ def observe(c):
 				o['d0'].append(drow)
 				o['raw'].append(rrow)
 				o['rawst'].append(rst)
+			o['st2'] = [U.state(x) for x in objs]
 			return o
+		if k == 'mut':
+			return _obs_mut(c)
 	except Exception as exc:
 		return {'err': U.exc_name(exc), 'msg': str(exc)[:200]}
 	raise ValueError(k)
@@ -292,6 +632,10 @@ def coq_case(c, o):
 	k = c['k']
 	if 'err' in o or 'harness_exception' in o:
 		return 'CAbs [(X "", (X "00", X "00"))]' if str(o.get('err', 'escape')).startswith('escape') else None  # escaping exception: force a disagreement
+	if c.get('nocoq'):
+		return None  # length class beyond what a case file affords: oracle only
+	if k == 'mut':
+		return 'CNorm %s %s %s %s %s' % (U.ltab([o['f']['t'][0], o['f']['t'][3]]), U.coq_port(U.classes()['URI'].PORT), U.coq_uri(None, o['f']['t']), U.coq_state(o['fc']), U.coq_state(o['fn1']))
 	if k == 'path':
 		a, n1, _ = o['r']
 		return 'CAbs %s' % L([P(X(U.enc(c['p'])), P(X(U.enc(a)), X(U.enc(n1))))])
@@ -302,7 +646,7 @@ def coq_case(c, o):
 	if k == 'rds':
 		return 'CRds %s' % U.pairs(zip(c['ps'], o['rs']))
 	if k == 'norm':
-		t = _mt(c['t'])
+		t = _mt(o['t'] if 'text' in c else c['t'])
 		P0 = U.classes()[c['cls']].PORT
 		return 'CNorm %s %s %s %s %s' % (U.ltab([t[0], t[3]]), U.coq_port(P0), U.coq_uri(None, t), U.coq_state(o['c']), U.coq_state(o['n1']))
 	if k == 'eq':
@@ -353,10 +697,57 @@ def oracle(c, o):
 			if f:
 				return f
 		return None
+	if k == 'mut':
+		f = o['f']
+		if o['f2'] != f:
+			return '== modified its operand: %r became %r' % (f, o['f2'])
+		if not o['lower_idem'] or not (f['t'][0] and f['t'][3]):
+			return None
+		fail = _norm_failure(_mt(f['t']), o)
+		if fail:
+			return 'after the modifications %r of %s(%r): %s' % (c['ops'], c['cls'], c['t'], fail)
+		if (o['n1']['cls'], o['n1']['P'], o['n1']['t']) != (o['fn1']['cls'], o['fn1']['P'], o['fn1']['t']):
+			return 'an object modified through %r normalises to %r, a fresh object built from the same components %r to %r' % (c['ops'], o['n1'], f['t'], o['fn1'])
+		if not all(o['eq1']) or not all(o['eq2']):
+			return 'an object modified through %r does not compare equal to a fresh object built from the same components %r (before normalize %r, after %r)' % (c['ops'], f['t'], o['eq1'], o['eq2'])
+		return None
 	if k == 'norm':
-		t = _mt(c['t'])
+		t = _mt(o['t'] if 'text' in c else c['t'])
 		if not o['lower_idem']:
 			return None  # outside the stated assumption on str.lower
+		return _norm_failure(t, o)
+	if k == 'eq':
+		f = _eq_failure(c, o)
+		if f:
+			return f
+		return _eq_failure2(c, o)
+	return None
+
+
+def _eq_failure2(c, o):
+	"""expectations that do not come from the implementation: the normal form written from the property text, applied to
+	the components the operands were built from ('nf') and to the components of the constructed objects"""
+	if not o['lower_idem']:
+		return None
+	if o.get('st2') is not None and o['st2'] != o['st']:
+		return '== modified an operand: %r became %r' % (o['st'], o['st2'])
+	n = len(c['xs'])
+	given = [x.get('nf') for x in c['xs']]
+	built = [indep_nf(st['t']) for st in o['st']]
+	for i in range(n):
+		if given[i] is not None and built[i] is not None and given[i] != built[i] and 'text' not in c['xs'][i]:
+			return 'harness: normal forms of tuple and constructed object differ: %r %r' % (given[i], built[i])
+		for j in range(n):
+			for what, nf in (('the components they were built from', given), ('their components after construction', built)):
+				if nf[i] is None or nf[j] is None:
+					continue
+				if o['m'][i][j] != (nf[i] == nf[j]):
+					return '== is %r but the normal forms of %s are %s: %r , %r -> %r , %r' % (o['m'][i][j], what, 'equal' if nf[i] == nf[j] else 'different', c['xs'][i], c['xs'][j], nf[i], nf[j])
+	return None
+
+
+def _norm_failure(t, o):
+	if True:
 		n1, n2 = o['n1'], o['n2']
 		if (n2['P'], n2['t']) != (n1['P'], n1['t']):
 			return 'normalize not idempotent: %r then %r' % (n1, n2)
@@ -375,6 +766,10 @@ def oracle(c, o):
 		if [got[1], got[2], got[6], got[7]] != [t[1], t[2], t[6], t[7]]:
 			return 'normalize changed user/password/query/fragment: %r' % (got,)
 		return _path_failure(t[5], [None, got[5], n2['t'][5]])
+
+
+def _eq_failure(c, o):
+	k = 'eq'
 	if k == 'eq':
 		if not o['lower_idem']:
 			return None
@@ -427,7 +822,9 @@ def nontrivial(c, o):
 	if k == 'paths':
 		return ('paths', c['ps'][0], len(c['ps']))
 	if k == 'norm':
-		return None if o['n1']['t'] == o['c']['t'] else ('norm', repr(c['t']), c['cls'])
+		return None if o['n1']['t'] == o['c']['t'] else ('norm', repr(c.get('t', c.get('text'))), c['cls'])
+	if k == 'mut':
+		return ('mut', repr(c['t']), repr(c['ops']))
 	if k == 'eq':
 		return ('eq', repr(c['xs']))
 	if k == 'rds':
